@@ -240,6 +240,19 @@ def unique_init(fn, d, use=None):
 OPT_TEST = ('::has_value', '::operator bool')
 
 
+def fact_passes(pred, facts):
+    """Some fact of the set satisfies pred — where a disjunctive fact ('any', (set1, set2, ...), None) ("one of these fact sets
+    holds", from a true `a || b` or a false `a && b` that the CFG does not split into separate edges, e.g. under a `!`)
+    satisfies it when every alternative does."""
+    for f in facts:
+        if f[0] == 'any':
+            if f[1] and all(fact_passes(pred, alt) for alt in f[1]):
+                return True
+        elif pred(f):
+            return True
+    return False
+
+
 def implied(fn, expr, val, out=None, depth=0):
     """Set of facts (kind, node, value) implied when `expr` evaluates to `val`.
     kind 'bool': node evaluated to value; kind 'has': optional-valued node is (non)empty."""
@@ -257,10 +270,15 @@ def implied(fn, expr, val, out=None, depth=0):
         if val:
             for c in fn.kids(e):
                 implied(fn, c, True, out, depth + 1)
+        else:
+            # a false conjunction: at least one operand is false (a disjunctive fact, see fact_passes)
+            out.add(('any', tuple(frozenset(implied(fn, c, False, None, depth + 1)) for c in fn.kids(e)), None))
     elif k == 'BinaryOperator' and nd.get('op') == '||':
         if not val:
             for c in fn.kids(e):
                 implied(fn, c, False, out, depth + 1)
+        else:
+            out.add(('any', tuple(frozenset(implied(fn, c, True, None, depth + 1)) for c in fn.kids(e)), None))
     elif k == 'DeclRefExpr' and nd.get('dk') in ('Var',):
         init = unique_init(fn, nd['d'], e)
         if init is not None:
@@ -568,7 +586,7 @@ class Cfg:
             kd = dict(known)
             stab = self.edge_stable(b)
             for idx, (s, label, facts) in enumerate(self.out_edges(b)):
-                if any(is_pass_fact(f) for f in facts):
+                if fact_passes(is_pass_fact, facts):
                     continue
                 contradiction = False
                 nk = None
@@ -608,7 +626,7 @@ class Cfg:
         out = []
         for bid in self.blocks:
             for s, label, facts in self.out_edges(bid):
-                if any(is_pass_fact(f) for f in facts):
+                if fact_passes(is_pass_fact, facts):
                     out.append((bid, s, label))
         return out
 
@@ -728,7 +746,7 @@ def returns_true_only_if(fn, gates):
     failures = []
     for glabel, is_pass in gates:
         for r, e in rets:
-            if any(is_pass(f) for f in implied(fn, e, True)):
+            if fact_passes(is_pass, implied(fn, e, True)):
                 continue
             loc = cfg.locate(r)
             if loc is None:
@@ -781,7 +799,7 @@ def must_precede(fn, targets, is_required, bypass=None):
             if b in req_pos and b != tb:
                 continue
             for s_, label, _f in cfg.out_edges(b):
-                if bypass is not None and any(bypass(f) for f in _f):
+                if bypass is not None and fact_passes(bypass, _f):
                     continue
                 if s_ not in prev:
                     prev[s_] = (b, label)
@@ -913,7 +931,7 @@ def must_hold_at(fn, sites, gen_edge, kill_elem, entry_state=False):
                 continue
             vals = []
             for p, facts in preds[b]:
-                v = OUT[p] or any(gen_edge(f) for f in facts)
+                v = OUT[p] or fact_passes(gen_edge, facts)
                 vals.append(v)
             new = all(vals) if vals else False
             if new != IN[b]:
